@@ -6,6 +6,7 @@ import (
 	"os"
 	"sort"
 	"strings"
+	"time"
 
 	"golang.org/x/tools/go/ssa"
 	"golang.org/x/tools/go/ssa/ssautil"
@@ -79,7 +80,11 @@ func devMain(args []string) {
 	}
 	var results []*FuncResult
 	for _, k := range keys {
+		t0 := time.Now()
 		results = append(results, v.VerifyFunc(v.cs.Funcs[k]))
+		if os.Getenv("VCGEN_TRACE") != "" {
+			fmt.Fprintf(os.Stderr, "gen %s %.2fs\n", k, time.Since(t0).Seconds())
+		}
 	}
 	var lnames []string
 	for n, lm := range v.cs.Lemmas {
@@ -107,7 +112,11 @@ func devMain(args []string) {
 	for _, r := range results {
 		all = append(all, r.Obls...)
 	}
+	t1 := time.Now()
 	solveAll(all, dir, *timeout, false)
+	if os.Getenv("VCGEN_TRACE") != "" {
+		fmt.Fprintf(os.Stderr, "solve %.2fs\n", time.Since(t1).Seconds())
+	}
 	bad := 0
 	for _, r := range results {
 		if r.Unsupported != "" {
